@@ -8,7 +8,7 @@ from sym import SpecLib
 import c_vector
 
 
-def build_C03(src, model='R'):
+def unit_C03(src, model='R'):
     u = Unit('C03', src, model)
     lib = SpecLib()
     F = c_vector.build(lib)
@@ -20,7 +20,19 @@ def build_C03(src, model='R'):
             pa, pb = L.render()
             u.lemma_texts.append(pa)
             u.poly_texts.append(pb)
-    return [u]
+    return u
+
+
+def build_C03(src, tier):
+    return [unit_C03(src, 'R')]
 
 
 UNITS = {'C03': build_C03}
+KANI = {}
+META = {
+    'C03': dict(min_obligations=350, trust=['A1', 'A2', 'A6'],
+                undecided=['integer scalar types "where no overflow occurs": argued (polynomial identities with integer coefficients hold in Z), not machine-checked',
+                           'iter::Sum is decided under C17 (bounded)']),
+}
+
+NOT_APPLICABLE = {}
